@@ -1,5 +1,10 @@
 // Scheduled correspondence harness for routine.RoutineContainer / StateRoutineContainer (C04, C05, C14).
 // Event and observation encoding: see /verif/coq/theories/Routine/Spec.v.
+//
+// Contexts: the n-th WaitExited caller of a history (event 13, n from 1) gets a context of the flavour hctx.Flavour(n): n%4 == 1
+// ends like a deadline (Err() == context.DeadlineExceeded), n%4 == 3 is cancelled with a cause, otherwise plain WithCancel; the
+// root contexts have fixed flavours (rootFlavour).  The code under test returns / reports the literal context.Canceled whatever
+// the flavour; codeOf distinguishes context.Canceled (1), context.DeadlineExceeded (97), the cause (98) and anything else (99).
 package routinex
 
 import (
@@ -7,6 +12,7 @@ import (
 	"errors"
 	"fmt"
 	"math/rand/v2"
+	"sync"
 	"testing"
 	"testing/synctest"
 	"time"
@@ -16,6 +22,7 @@ import (
 	"github.com/aperturerobotics/util/routine"
 	cbackoff "github.com/cenkalti/backoff/v4"
 	"verif/harness/ctl"
+	"verif/harness/hctx"
 	"verif/harness/hist"
 )
 
@@ -67,13 +74,92 @@ type idata struct {
 }
 
 type wdata struct {
-	cancel    context.CancelFunc
+	cancel    func() // ends the caller's context (a context flavour of hctx: plain / deadline-like / cancelled with a cause)
+	flavour   int    // 0 plain, 1 deadline-like, 2 cancelled with a cause
 	cancelled bool
+	counted   bool
 	errCh     chan error
 }
 
+// Flavours of the root contexts (ids 1..nRoots): 1 and 5 plain WithCancel; 2 ends like a context whose DEADLINE PASSED, also
+// for the contexts derived from it (dlRoot below: the instance contexts the container derives from it report
+// context.DeadlineExceeded); 3 cancelled with a cause (hctx.WithCause: Err() == Canceled, Cause == hctx.ErrCause, inherited by
+// derived contexts); 4 hctx.DeadlineLike (Err() == DeadlineExceeded on the root itself).  The container never passes the
+// root's (or the derived context's) error on: an instance that is cancelled before it starts exits with the literal
+// context.Canceled.
+var rootFlavour = [nRoots + 1]string{"", "plain", "deadline_propagating", "with_cause", "deadline_like", "plain"}
+
+// dlRoot is a context that, once end() was called, is done with Err() == context.DeadlineExceeded and
+// context.Cause == context.DeadlineExceeded, and so is every context derived from it (as with context.WithDeadline, but the
+// controller decides when; no clock).  The context package registers derived contexts through the AfterFunc method; end()
+// runs the registered functions synchronously, in registration order, so that a derived context is cancelled by the time
+// end() returns (exactly as for a WithCancel parent).
+type dlRoot struct {
+	vals context.Context
+	done chan struct{}
+	mu   sync.Mutex
+	err  error
+	fns  []*dlFn
+}
+
+type dlFn struct{ f func() }
+
+func newDlRoot(vals context.Context) (*dlRoot, func()) {
+	c := &dlRoot{vals: vals, done: make(chan struct{})}
+	return c, c.end
+}
+
+func (c *dlRoot) Deadline() (time.Time, bool) { return time.Time{}, false }
+func (c *dlRoot) Done() <-chan struct{}       { return c.done }
+func (c *dlRoot) Value(k any) any             { return c.vals.Value(k) }
+func (c *dlRoot) Err() error {
+	c.mu.Lock()
+	defer c.mu.Unlock()
+	return c.err
+}
+
+func (c *dlRoot) AfterFunc(f func()) (stop func() bool) {
+	c.mu.Lock()
+	if c.err != nil {
+		c.mu.Unlock()
+		f()
+		return func() bool { return false }
+	}
+	e := &dlFn{f: f}
+	c.fns = append(c.fns, e)
+	c.mu.Unlock()
+	return func() bool {
+		c.mu.Lock()
+		defer c.mu.Unlock()
+		for i, x := range c.fns {
+			if x == e {
+				c.fns = append(c.fns[:i:i], c.fns[i+1:]...)
+				return true
+			}
+		}
+		return false
+	}
+}
+
+func (c *dlRoot) end() {
+	c.mu.Lock()
+	if c.err != nil {
+		c.mu.Unlock()
+		return
+	}
+	c.err = context.DeadlineExceeded
+	close(c.done)
+	fns := c.fns
+	c.fns = nil
+	c.mu.Unlock()
+	for _, x := range fns {
+		x.f()
+	}
+}
+
 type sys struct {
-	nclear int // plain clearing calls so far: they alternate between SetContext(nil, false) and ClearContext()
+	nclear  int // plain clearing calls so far: they alternate between SetContext(nil, false) and ClearContext()
+	nwait   int // WaitExited calls so far (event 13): the n-th one gets the context flavour hctx.Flavour(n)
 	c       *ctl.Ctl
 	w       *hist.W
 	variant bool
@@ -81,7 +167,7 @@ type sys struct {
 	rc      *routine.RoutineContainer
 	sc      *routine.StateRoutineContainer[uint64]
 	roots   []context.Context
-	cancels []context.CancelFunc
+	cancels []func()
 	insts   []*ctl.Actor
 	timers  []*ctl.Actor
 	waiters []*ctl.Actor
@@ -94,14 +180,15 @@ type sys struct {
 	// realBO: the back-off object is built by the library from a backoff.Backoff configuration (the harness does not see
 	// its calls): the clock is advanced millisecond by millisecond, and the generator lets one millisecond pass after every
 	// bookkeeping section, so that no two retry timers are ever due at the same instant
-	realBO   bool
-	needTick bool
-	maxFail  int // > 0: at most that many error outcomes are generated in this history
-	cur      uint64 // the root context last passed to SetContext (0 = nil)
-	before   uint64 // cur before the event being executed
-	deadRoot []bool // root contexts cancelled by their owner (event 18)
-	postCanc int    // > 0: a root was just cancelled: favour API calls, WaitExited and retry timers for that many events
-	nFail    int
+	realBO    bool
+	needTick  bool
+	maxFail   int    // > 0: at most that many error outcomes are generated in this history
+	cur       uint64 // the root context last passed to SetContext (0 = nil)
+	before    uint64 // cur before the event being executed
+	deadRoot  []bool // root contexts cancelled by their owner (event 18)
+	postCanc  int    // > 0: a root was just cancelled: favour API calls, WaitExited and retry timers for that many events
+	nFail     int
+	lastDelta int // exit-callback invocations during the last event
 }
 
 func errOf(code uint64) error {
@@ -115,18 +202,36 @@ func errOf(code uint64) error {
 	}
 }
 
+// Error codes of what the library returned / reported.  The IDENTITY counts (a WaitExited caller whose context ended, an
+// instance cancelled before it started: the literal context.Canceled, whatever the flavour of the context):
+// 1 context.Canceled itself, 97 context.DeadlineExceeded, 98 hctx.ErrCause (the cause of a context cancelled with a cause),
+// n+2 the harness's own error "e<n>", 99 anything else (also a wrapped Canceled).
+const (
+	codeDeadline = 97
+	codeCause    = 98
+	codeOther    = 99
+)
+
 func codeOf(err error) uint64 {
 	if err == nil {
 		return 0
 	}
-	if errors.Is(err, context.Canceled) {
+	switch err {
+	case context.Canceled:
 		return 1
+	case context.DeadlineExceeded:
+		return codeDeadline
+	case hctx.ErrCause:
+		return codeCause
+	}
+	if errors.Is(err, context.Canceled) || errors.Is(err, context.DeadlineExceeded) || errors.Is(err, hctx.ErrCause) {
+		return codeOther
 	}
 	var n uint64
 	if _, e := fmt.Sscanf(err.Error(), "e%d", &n); e == nil {
 		return n + 2
 	}
-	return 99
+	return codeOther
 }
 
 func newSys(w *hist.W, cfg []uint64) *sys {
@@ -170,12 +275,25 @@ func newSys(w *hist.W, cfg []uint64) *sys {
 		s.rc = routine.NewRoutineContainer(opts...)
 	}
 	s.roots = []context.Context{nil}
-	s.cancels = []context.CancelFunc{nil}
+	s.cancels = []func(){nil}
 	s.deadRoot = make([]bool, nRoots+1)
 	for i := 1; i <= nRoots; i++ {
-		ctx, cancel := context.WithCancel(context.WithValue(context.Background(), rootKey{}, uint64(i)))
+		vals := context.WithValue(context.Background(), rootKey{}, uint64(i))
+		var ctx context.Context
+		var end func()
+		switch rootFlavour[i] {
+		case "deadline_propagating":
+			ctx, end = newDlRoot(vals)
+		case "with_cause":
+			ctx, end = hctx.WithCause(vals)
+		case "deadline_like":
+			ctx, end = hctx.DeadlineLike(vals)
+		default:
+			c, cancel := context.WithCancel(vals)
+			ctx, end = c, func() { cancel() }
+		}
 		s.roots = append(s.roots, ctx)
-		s.cancels = append(s.cancels, cancel)
+		s.cancels = append(s.cancels, end)
 	}
 	s.c.ShouldPark = func(a *ctl.Actor, pkg string, site int, obj any) bool {
 		switch a.Kind {
@@ -276,6 +394,7 @@ func (s *sys) obs(rets []uint64) []uint64 {
 	}
 	delta := s.cblog[s.cbseen:]
 	s.cbseen = len(s.cblog)
+	s.lastDelta = len(delta)
 	o = append(o, uint64(len(delta)))
 	o = append(o, delta...)
 	o = append(o, uint64(len(s.waiters)))
@@ -498,10 +617,13 @@ func (s *sys) exec(ev []uint64) (obs []uint64, ok bool) {
 		}
 		s.c.Step(ts[ev[1]])
 	case 13:
-		ctx, cancel := context.WithCancel(context.Background())
+		// the n-th WaitExited call of the history (n from 1) gets the context flavour n%4: 1 deadline-like, 3 cancelled with a
+		// cause, 0 / 2 plain (a replay reproduces it: the counter is per history)
+		s.nwait++
+		ctx, cancel, flavour := hctx.Flavour(context.Background(), s.nwait)
 		errCh := make(chan error, 1)
 		a := s.c.NewActor(kWaiter)
-		a.Data = &wdata{cancel: cancel, errCh: errCh}
+		a.Data = &wdata{cancel: cancel, flavour: flavour, errCh: errCh}
 		s.waiters = append(s.waiters, a)
 		rinr := ev[1] == 1
 		s.c.Go(a, func(a *ctl.Actor) {
@@ -796,6 +918,61 @@ func (s *sys) count(ev, obs []uint64) {
 	if s.before != 0 && s.deadRoot[s.before] && ev[0] != 18 {
 		// the root context the container was given last has been cancelled by its owner
 		s.w.Count("rootcancelled."+names[ev[0]], 1)
+	}
+	flv := []string{"plain", "deadline_like", "with_cause"}
+	codeName := func(c uint64) string {
+		switch c {
+		case 0:
+			return "nil"
+		case 1:
+			return "context_canceled"
+		case codeDeadline:
+			return "deadline_exceeded"
+		case codeCause:
+			return "the_cause"
+		}
+		return fmt.Sprintf("error_%d", c)
+	}
+	switch ev[0] {
+	case 1:
+		if ev[1] != 0 {
+			s.w.Count("ctx.setcontext_root_"+rootFlavour[ev[1]], 1)
+		}
+	case 13:
+		s.w.Count("ctx.waitexited_context_"+flv[s.waiters[len(s.waiters)-1].Data.(*wdata).flavour], 1)
+	case 15:
+		s.w.Count("ctx.waitexited_context_ended_"+flv[s.waiters[ev[1]].Data.(*wdata).flavour], 1)
+	case 18:
+		s.w.Count("ctx.root_ended_"+rootFlavour[ev[1]], 1)
+		if s.before == ev[1] {
+			s.w.Count("ctx.current_root_ended_"+rootFlavour[ev[1]], 1)
+		}
+	case 10:
+		// the exit of an instance that was cancelled before it entered the managed function (the library makes up its error)
+		if d := s.insts[ev[1]].Data.(*idata); !d.entered {
+			fl := "none"
+			if s.before != 0 {
+				fl = rootFlavour[s.before]
+			}
+			s.w.Count("ctx.instance_cancelled_before_start.current_root_"+fl, 1)
+		}
+	}
+	if (ev[0] == 10 || ev[0] == 17) && s.before != 0 && s.deadRoot[s.before] {
+		for _, c := range s.cblog[len(s.cblog)-s.lastDelta:] {
+			s.w.Count("ctx.exit_reported_after_"+rootFlavour[s.before]+"_root_ended."+codeName(c), 1)
+		}
+	}
+	for _, a := range s.waiters {
+		d := a.Data.(*wdata)
+		if a.Done() && !d.counted {
+			d.counted = true
+			if d.cancelled {
+				s.w.Count("ctx.waitexited_with_"+flv[d.flavour]+"_context_ended_returned_"+codeName(uint64(a.Res)), 1)
+				if d.flavour != 0 && a.Res == 1 {
+					s.w.Count("ctx.waitexited_flavoured_context_ended_returned_context_canceled", 1)
+				}
+			}
+		}
 	}
 	inUser, blocked := 0, 0
 	for _, a := range s.insts {
